@@ -170,6 +170,11 @@ def make_program(role: str, bysrc: t.Dict[str, t.List[t.Any]], length: int, rnd:
             prog.append({"t": "register", "type": typ, "expect": "ValueError" if typ in reg else "ok"})
             reg.add(typ)
             continue
+        if 0.45 <= u < 0.50 and src["st"] == "OPENED":
+            # a send call whose argument cannot be encoded (D6: outside C10's quantifier, the session's protocol state is
+            # OPENED before and after): whatever the failed encoding leaves behind must stay inside this session
+            prog.append({"t": "badsend", "id": rnd.choice(src["out"]) if src["out"] else 1})
+            continue
         if u < 0.45 and src["st"] != "CLOSED":
             typ = rnd.choice(types) + rnd.choice(("", "", "2"))
             if rnd.random() < 0.2:
@@ -205,6 +210,12 @@ def make_program(role: str, bysrc: t.Dict[str, t.List[t.Any]], length: int, rnd:
     return prog
 
 
+def _bad_control() -> t.Any:
+    import sansldap
+
+    return sansldap.LDAPControl("1.2.\ud800", False, None)
+
+
 def run_step(s: t.Any, role: str, step: t.Dict[str, t.Any], seed: str) -> t.Tuple[t.Any, t.List[t.Tuple[str, str, str]]]:
     """Execute one program step; returns (transcript entry, differences against the model)."""
     rnd = random.Random(seed)
@@ -220,6 +231,17 @@ def run_step(s: t.Any, role: str, step: t.Dict[str, t.Any], seed: str) -> t.Tupl
         if res != step["expect"]:
             diffs.append(("C19", f"register/{step['type']}/{step['expect']}->{res}", f"register_{step['type']}: expected {step['expect']}, got {res}"))
         return ("register", step["type"], res, s.state.name), diffs
+    if step["t"] == "badsend":
+        bad = "x\ud800"
+        try:
+            if role == "client":
+                s.search_request(bad, attributes=["cn"]) if rnd.random() < 0.5 else s.extended_request("1.2.3", None, controls=[_bad_control()])
+            else:
+                s.search_result_entry(step["id"], bad, []) if rnd.random() < 0.5 else s.search_result_done(step["id"], diagnostics_message=bad)
+            res = "ok"
+        except Exception as ex:  # noqa: BLE001
+            res = type(ex).__name__
+        return ("badsend", res, s.data_to_send().hex(), s.state.name), diffs
     if step["t"] == "custom":
         data, kind, obj = custom_unit(role, step["type"], step["id"], rnd)
         res, got, exc = "ok", [], ""
